@@ -122,7 +122,7 @@ def extract(repo=None):
                     items.append(("plain", atom))
             act = (alt.action or "").strip()
             alts.append({"items": items, "guard": bool(inval.visit(alt)), "act": nact, "actNone": act == "None",
-                         "action": act[:60]})
+                         "loc": "LOCATIONS" in act, "action": act[:60]})
             nact += 1
         rules.append({"name": name, "kind": kind, "loop": bool(is_loop), "gather": bool(is_gather),
                       "noinv": name.endswith("without_invalid"), "alts": alts})
@@ -219,7 +219,8 @@ def stats(g):
             "unmemoised_left_recursive": sum(r["kind"] == "nomemo" for r in rules),
             "loops": sum(r["loop"] for r in rules), "nullable_rules": sum(g["nullable"]),
             "max_rank": max(g["rank"]) if g["rank"] else 0,
-            "invalid_guarded_alternatives": sum(a["guard"] for r in rules for a in r["alts"])}
+            "invalid_guarded_alternatives": sum(a["guard"] for r in rules for a in r["alts"]),
+            "actions_using_LOCATIONS": sum(bool(a.get("loc")) for r in rules for a in r["alts"])}
 
 
 def _atom(at):
@@ -262,5 +263,9 @@ def to_lean(g):
     none_acts = [a["act"] for r in g["rules"] for a in r["alts"] if a["actNone"]]
     lines.append("/-- alternatives whose action is the literal `None` -/")
     lines.append("def pegNoneActions : List Nat := [" + ", ".join(map(str, none_acts)) + "]")
+    loc_bits = sum(1 << a["act"] for r in g["rules"] for a in r["alts"] if a.get("loc"))
+    lines.append("/-- bit `a` is set when the action of alternative `a` uses LOCATIONS (pegen then emits "
+                 "`tok = self._tokenizer.get_last_non_whitespace_token()` before it) -/")
+    lines.append(f"def pegLocBits : Nat := {loc_bits}")
     lines.append("end Scenic.Gen")
     return "\n".join(lines) + "\n"
